@@ -259,3 +259,70 @@ CONSTANTS
 INVARIANT Report
 CHECK_DEADLOCK FALSE
 '''
+
+
+# ------------------------------------------------------- inverted-index workers
+def eligible_oc(case):
+    if case.get('n_jobs', 1) != 1:
+        return False
+    if case['kind'] == 'join':
+        return case['meas'] in ('OVERLAP_COEFFICIENT', 'OVERLAP')
+    return case.get('filt') == 'OVERLAP'
+
+
+def build_oc(case, events, tables, tid):
+    ltable, rtable = tables
+    fn = 'overlap_coefficient_join' if case['meas'] == 'OVERLAP_COEFFICIENT' else 'overlap_filter'
+    starts = [e for e in events if e['ev'] == 'worker_start' and e.get('fn') == fn]
+    ends = [e for e in events if e['ev'] == 'worker_end' and e.get('fn') == fn]
+    built = [e for e in events if e['ev'] == 'index_built' and e.get('kind') == 'inverted']
+    if len(starts) != 1 or len(ends) != 1 or len(built) != 1:
+        return None
+    toks = record.abstract_tables(case, ltable, rtable)
+    lkey, rkey = case.get('lkey', 'id'), case.get('rkey', 'id')
+    lkeys, rkeys = ltable[lkey].tolist(), rtable[rkey].tolist()
+    L = [toks[('L', i)] for i in range(len(lkeys)) if toks[('L', i)] is not None]
+    R = [toks[('R', i)] for i in range(len(rkeys)) if toks[('R', i)] is not None]
+    l_present = [lkeys[i] for i in range(len(lkeys)) if toks[('L', i)] is not None]
+    r_present = [rkeys[i] for i in range(len(rkeys)) if toks[('R', i)] is not None]
+    if [record.key_code(k) for k in starts[0]['l_keys']] != [record.key_code(k) for k in l_present]:
+        return None
+    oracle = record.make_tokenizer(case['tok'], return_set=True)
+    vocab = sorted({t for tab, attr in ((ltable, case.get('lattr', 's')), (rtable, case.get('rattr', 's')))
+                    for v in tab[attr].tolist() if not record.is_missing(v) for t in oracle.tokenize(v)})
+    ids = {t: i + 1 for i, t in enumerate(vocab)}
+    mode = 'oc' if fn == 'overlap_coefficient_join' else 'overlap'
+    rec = {'tid': tid, 't': list(case['t']), 'op': case['op'], 'L': L, 'R': R,
+           'index': [[ids.get(t, 0), list(rows)] for t, rows in built[0]['index']],
+           'sizes': list(built[0].get('sizes') or []), 'empties': list(built[0].get('empties') or []),
+           'probes': [], 'rows': []}
+    by_key = {}
+    for e in events:
+        if e['ev'] == 'probe' and e.get('fn') == fn:
+            by_key[record.key_code(e['r_key'])] = e
+    for k in r_present:
+        e = by_key.get(record.key_code(k))
+        if e is None:
+            rec['probes'].append({'skipped': 1, 'rtoks': [], 'cand': []})
+        else:
+            rec['probes'].append({'skipped': 0, 'rtoks': sorted({ids.get(t, 0) for t in e['r_tokens']}),
+                                  'cand': [[c[0], c[1]] for c in e['cand']]})
+    lpos = {record.key_code(k): i for i, k in enumerate(l_present)}
+    rpos = {record.key_code(k): i for i, k in enumerate(r_present)}
+    for row in ends[0]['rows']:
+        rec['rows'].append([lpos.get(record.key_code(row[0]), -1), rpos.get(record.key_code(row[1]), -1)])
+    ae = bool(case.get('ae', 1)) if mode == 'oc' else True
+    return ('OC', mode, ae), rec
+
+
+CFG_OC = '''SPECIFICATION TSpec
+CONSTANTS
+  NTok = 1
+  MaxL = 0
+  MaxR = 0
+  Mode = "%s"
+  AllowEmpty = %s
+  Sabotage = "none"
+INVARIANT Report
+CHECK_DEADLOCK FALSE
+'''
